@@ -67,6 +67,24 @@ Theorem C12_progress : forall wc n tr s, n <> 0 -> run wc guard_or (init n) tr =
 Proof. exact drain_schedule. Qed.
 Print Assumptions C12_progress.
 
+(* No deadlock: whenever the acceptor is inside work.c (sending the signal, blocked
+   or woken in a wait loop, cancelling, joining), some step other than a spurious
+   wake-up is enabled. *)
+Theorem C12_no_deadlock : forall n tr s, n <> 0 -> run guard_or guard_or (init n) tr = Some s ->
+  ~ stuck guard_or guard_or s.
+Proof. exact no_deadlock. Qed.
+Print Assumptions C12_no_deadlock.
+
+(* work_fini terminates: from every reachable state inside work_fini (either value
+   of do_wait, any position of the cancel requests relative to the workers' waits)
+   a finite schedule lets it return; with do_wait every accepted item is then done. *)
+Theorem C12_fini_terminates : forall n tr s, n <> 0 -> run guard_or guard_or (init n) tr = Some s ->
+  in_fini (acc s) = true ->
+  exists sched s', run guard_or guard_or s sched = Some s' /\ acc s' = ADone /\
+                   (dwait s' = true -> Permutation (done s') (accepted s')).
+Proof. exact fini_terminates. Qed.
+Print Assumptions C12_fini_terminates.
+
 (* The guard of the unchanged source,  n_working != 0 && work_head != NULL :
    work_wait returns with an item in progress (one worker, one item) ... *)
 Theorem C12_guard_and_refuted_wait : forall fc, early_return guard_and fc.
